@@ -30,7 +30,7 @@ theorem restore_iff_completed (ops : List Op) :
     | true => have := (hw.reg_alive h).1; simp [hup] at this
   by_cases hc : s.state = some .completed
   · have hr : step s .restart
-        = some { s with up := true, reg := true, phase := .loop, state := some .running } := by
+        = some { s with up := true, reg := true, phase := .loop, state := some .running, forGood := false } := by
       simp [step, hup, hdir, hc]
     exact ⟨_, hr, by simp [S.served, hc], by simp [hdir], by simp [hc]⟩
   · have hr : step s .restart
@@ -51,15 +51,18 @@ theorem completed_only_by_drainEnd (s c : S) (o : Op) (h : step s o = some c)
 applied: applied = produced; the log ends with the last produced change."**
 First part: in every reachable state whose persisted state is `completed` nothing accepted is
 waiting (`produced = applied`), the handle has left the manager (nothing can be accepted any more)
-and the matcher task is gone.  Second part, the moment of writing: the step that writes `completed`
-first applies every waiting candidate (each accepted key now carries the table's value), its change
-log is the log after the last produced change, with consecutive ids. -/
+and the matcher task is gone.  Second part, the moment of writing: the step that ends the drain
+first applies every waiting candidate (each accepted key now carries the table's value, the change
+log is the log after the last produced change, with consecutive ids) and then writes `completed` —
+unless the matcher had left its loop through the cancellation branch (`forGood`, fix 49b7ba8): then
+the state stays `cancelled`. -/
 theorem completed_implies_drained (ops : List Op) :
     let s := run init ops
     (s.state = some .completed →
         s.pending = [] ∧ s.produced = s.applied ∧ s.reg = false ∧ s.phase = .gone) ∧
     (∀ c, step s .drainEnd = some c →
-        c.state = some .completed ∧ c.pending = [] ∧ c.applied = s.produced ∧
+        (c.state = if s.forGood then some .cancelled else some .completed) ∧
+        c.pending = [] ∧ c.applied = s.produced ∧
         (∀ k ∈ s.pending, c.rows k = s.db k) ∧
         c.log = (applyAll s s.pending).log ∧ Consecutive c.log) := by
   intro s
@@ -71,11 +74,14 @@ theorem completed_implies_drained (ops : List Op) :
     simp only [step] at hc
     split at hc <;> simp at hc
     subst hc
-    obtain ⟨_, _, _, _, _, _, _, _, _, _, _, _, _, _, e_pend, e_app, e_log, e_rows⟩ := flush_fields s
-    refine ⟨rfl, e_pend, by simp [e_app, S.produced], ?_, e_log, hw'.ids⟩
-    intro k hk
-    show s.flush.rows k = s.db k
-    rw [e_rows, applyAll_rows]; simp [hk]
+    obtain ⟨_, _, _, _, _, _, _, _, _, _, _, _, _, _, e_pend, e_app, e_log, e_rows, _⟩ := flush_fields s
+    refine ⟨?_, e_pend, by simp [e_app, S.produced], ?_, e_log, hw'.ids⟩
+    · cases hfg : s.forGood with
+      | false => simp
+      | true => simpa using (hw.for_good hfg).2.1
+    · intro k hk
+      show s.flush.rows k = s.db k
+      rw [e_rows, applyAll_rows]; simp [hk]
 
 /-- **"After a graceful stop + restart: same subscription id, rows = query result at close, next
 change id = max + 1."**  From every reachable state in which the subscription is served, the
@@ -110,10 +116,10 @@ theorem restart_continues_ids (ops : List Op) :
   have e1 : gracefulRestart = [.trip, .initialDone, .ack] ++ ([.unreg false, .dropClone, .initialDone, .ack, .drainEnd] ++ [.stop, .restart]) := rfl
   have e2 : gracefulRestart.take 8 = [.trip, .initialDone, .ack] ++ [.unreg false, .dropClone, .initialDone, .ack, .drainEnd] := rfl
   have e3 : gracefulRestart.take 3 = [.trip, .initialDone, .ack] := rfl
-  obtain ⟨d_ph, d_up, d_reg, _, d_dir, d_sid, d_db, d_missed, d_held⟩ := to_drain hw hs
-  generalize hd : run s [.trip, .initialDone, .ack] = d at d_ph d_up d_reg d_dir d_sid d_db d_missed d_held
+  obtain ⟨d_ph, d_up, d_reg, _, d_dir, d_sid, d_db, d_missed, d_held, d_fg⟩ := to_drain hw hs
+  generalize hd : run s [.trip, .initialDone, .ack] = d at d_ph d_up d_reg d_dir d_sid d_db d_missed d_held d_fg
   obtain ⟨c_st, _, c_up, _, c_pend, c_dir, c_sid, c_db, c_missed, c_held, c_app, _, _⟩ :=
-    drain_to_completed d_ph d_up d_reg
+    drain_to_completed d_ph d_up d_reg d_fg
   have hc : c = run d [.unreg false, .dropClone, .initialDone, .ack, .drainEnd] := by
     show run s (gracefulRestart.take 8) = _
     rw [e2, run_append, hd]
@@ -144,6 +150,57 @@ theorem restart_continues_ids (ops : List Op) :
   have hdbk : (r.db.apply [(k, v)]) k = v := by simp [Tbl.apply, Tbl.set]
   simp [run, stepD, step, r_up, r_reg, r_ph, r_canc, S.onDisk, r_dir, r_st, r_pend, Tx.keys, S.flush,
     applyAll, applyOne, hdbk, hv', S.lastId, Tbl.set]
+
+/-- the binary's stop sequence with `drop_handles()` reaching the matcher BEFORE the matcher has
+looked at the tripwire (it is still inside its initial query, or busy with a batch, or simply was
+not polled in between), followed by a start -/
+def gracefulRestartOvertaken : List Op :=
+  [.trip, .unreg false, .dropClone, .initialDone, .ack, .drainEnd, .stop, .restart]
+
+/-- **Since fix c37e976 (was: counterexample on 49b7ba8, replay `fill 6000 | w 1=1 | sub slow nowait
+| graceful | restart live | subinfo` → 404): a graceful stop restores the subscription also when
+the cancellation of `drop_handles()` overtakes the tripwire** — at any point of the subscription's
+life (creation, initial query, running, draining).  `drop_handles()` cancels with the same token as
+an unsubscription and `cmd_loop`'s biased `select!` looks at the cancellation first; while the node
+is shutting down that is not an unsubscription: the drain runs, `completed` is written, and the
+next start serves the same id with everything accepted applied (and rows equal to the table if
+nothing was missed). -/
+theorem graceful_overtaken_restores (ops : List Op) :
+    let s := run init ops
+    s.served = true →
+    let c := run s (gracefulRestartOvertaken.take 6)
+    let r := run s gracefulRestartOvertaken
+    (c.state = some .completed ∧ c.pending = []) ∧
+    (r.served = true ∧ r.dir = true ∧ r.sid = s.sid ∧ r.state = some .running ∧ r.pending = [] ∧
+      r.log = c.log ∧ r.rows = c.rows ∧ r.db = s.db) ∧
+    (s.missed = 0 → s.held = [] → ∀ k, r.rows k = s.db k) := by
+  intro s hs c r
+  have hw : WF s := reach_wf ops
+  have hf : Fresh s := reach_fresh ops
+  have e1 : gracefulRestartOvertaken
+      = [.trip, .unreg false, .dropClone, .initialDone, .ack, .drainEnd] ++ [.stop, .restart] := rfl
+  have e2 : gracefulRestartOvertaken.take 6 = [.trip, .unreg false, .dropClone, .initialDone, .ack, .drainEnd] := rfl
+  obtain ⟨c_st, c_up, c_pend, c_dir, c_sid, c_db, c_missed, c_held⟩ := overtaken_to_completed hw hs
+  have hc : c = run s [.trip, .unreg false, .dropClone, .initialDone, .ack, .drainEnd] := by
+    show run s (gracefulRestartOvertaken.take 6) = _
+    rw [e2]
+  have hr : r = run c [.stop, .restart] := by
+    show run s gracefulRestartOvertaken = _
+    rw [e1, run_append, ← hc]
+  rw [← hc] at c_st c_up c_pend c_dir c_sid c_db c_missed c_held
+  obtain ⟨r_srv, r_dir, r_sid, r_st, r_pend, r_held, r_log, r_rows, r_db, r_ph, _, r_missed⟩ :=
+    completed_restart c_st c_up c_dir
+  rw [← hr] at r_srv r_dir r_sid r_st r_pend r_held r_log r_rows r_db r_ph r_missed
+  refine ⟨⟨c_st, c_pend⟩,
+    ⟨r_srv, r_dir, by rw [r_sid, c_sid], r_st, r_pend, r_log, r_rows, by rw [r_db, c_db]⟩, ?_⟩
+  intro hm hh k
+  have hfr : Fresh r := run_fresh _ hw hf
+  have r_m0 : r.missed = 0 := by
+    rw [r_missed, c_held, hh, c_missed, hm]; rfl
+  have r_up : r.up = true := by simp only [S.served, Bool.and_eq_true] at r_srv; exact r_srv.1
+  have := hfr r_m0 (by simp [S.onDisk, r_dir, r_st]) (Or.inl r_up) k (by simp [r_pend]) (by simp [r_held])
+  rw [r_db, c_db] at this
+  simpa [r_ph] using this
 
 /-- While the matcher task of the subscription is alive — creation, initial query, running, draining,
 cancelled but not yet finished — the persisted state is never `completed`. -/
@@ -257,22 +314,41 @@ theorem restored_rows_eq_query_partial (ops : List Op) :
     rw [hr] at hsrv
     simp [S.served, hreg] at hsrv
 
+/-- **Since fix 49b7ba8 (was: counterexample `unsubscribed-sub-restored-stale`): an unsubscribed
+subscription never comes back.**  From every reachable state in which the subscription is served
+and the node is not shutting down: after the tail of `process_sub_channel` (all listeners gone for
+`MAX_UNSUB_TIME`: `subs.remove` + `handle.cleanup()`) and the matcher winding down, the persisted
+state is `cancelled` — no longer overwritten by `completed` — and whatever happens afterwards
+(transactions the subscription no longer sees, stops of any kind, restarts, new subscriptions), the
+id is never served again: the first start removes the directory. -/
+theorem unsubscribed_never_served_again (ops l : List Op) :
+    let s := run init ops
+    s.served = true → s.tripped = false →
+    let u := run s [.unreg false, .initialDone, .ack, .drainEnd]
+    u.state = some .cancelled ∧ u.dir = true ∧ u.sid = s.sid ∧
+    (run u [.stop, .restart]).dir = false ∧
+    ¬ ((run u l).served = true ∧ (run u l).sid = s.sid) := by
+  intro s hs ht u
+  have hw : WF s := reach_wf ops
+  obtain ⟨u_st, u_dir, u_sid, u_up, u_dead⟩ := unsub_dead hw hs ht
+  have hwu : WF u := run_wf _ hw
+  refine ⟨u_st, u_dir, u_sid, ?_, ?_⟩
+  · have h1 : u.state = some .cancelled := u_st
+    have h2 : u.dir = true := u_dir
+    have h3 : u.up = true := u_up
+    simp [run, stepD, step, h1, h2, h3]
+  · intro ⟨h1, h2⟩
+    have hwl : WF (run u l) := run_wf _ hwu
+    obtain ⟨_, hd⟩ := run_dead l u_dead
+    simp only [S.served, Bool.and_eq_true] at h1
+    have hal := hwl.reg_alive h1.2
+    have hdir := (hwl.phase_up hal.2.1).2
+    rcases hd with h | h | h
+    · exact absurd (hdir.symm.trans h) (by decide)
+    · exact h h2
+    · exact absurd (h1.2.symm.trans h.2.2) (by decide)
+
 /-! ### the code as it is: `completed` although work is lost -/
-
-/-- an unsubscribed subscription (all listeners gone for `MAX_UNSUB_TIME`: `subs.remove` +
-`handle.cleanup()`), a later transaction, a stop of any kind, a start -/
-def unsubThenWrite : List Op :=
-  [.mkdir, .create, .initialDone, .write [(1, some 1)], .process,
-   .unreg false, .ack, .drainEnd, .write [(2, some 2)], .stop, .restart]
-
-/-- **Counterexample (replayed on the real code: known region `unsubscribed-sub-restored-stale`).**
-Cancellation writes `cancelled`, the same code path then writes `completed`; the directory is kept;
-the transaction that commits afterwards finds no handle; at the next start the subscription is
-restored and served although its rows differ from the table. -/
-theorem restored_stale_unsub_counterexample :
-    let s := run init unsubThenWrite
-    s.served = true ∧ s.missed = 1 ∧ s.rows 2 = none ∧ s.db 2 = some 2 ∧ s.rows 2 ≠ s.db 2 := by
-  decide
 
 /-- a transaction whose match step runs after `drop_handles()` (its `broadcast_changes` task was
 waiting for a read connection), inside the binary's own stop sequence -/
@@ -291,10 +367,12 @@ theorem restored_stale_late_match_counterexample :
 
 /-! ### examples: the hypotheses are satisfiable, the mechanisms are exercised -/
 
-/-- `cancelled` is overwritten by `completed` on the same path -/
+/-- since fix 49b7ba8 `cancelled` is no longer overwritten by `completed` on the same path -/
 example :
     (run init [.mkdir, .create, .initialDone, .unreg false, .ack]).state = some .cancelled ∧
-    (run init [.mkdir, .create, .initialDone, .unreg false, .ack, .drainEnd]).state = some .completed := by
+    (run init [.mkdir, .create, .initialDone, .unreg false, .ack, .drainEnd]).state = some .cancelled ∧
+    (run init [.mkdir, .create, .initialDone, .unreg false, .ack, .drainEnd,
+               .write [(2, some 2)], .stop, .restart]).dir = false := by
   decide
 
 /-- a stop while `cancelled` (another clone of the handle keeps the drain open) is discarded -/
@@ -319,6 +397,13 @@ example :
     let r := run s gracefulRestart
     s.served = true ∧ s.state = some .created ∧ r.served = true ∧ r.sid = s.sid ∧
     r.rows 1 = some 2 ∧ r.rows 2 = some 5 ∧ r.log = [2, 1] := by
+  decide
+
+/-- `gracefulRestartOvertaken` from the middle of the initial query (the replay that failed on 49b7ba8) -/
+example :
+    let s := run init [.write [(1, some 1)], .mkdir, .create, .write [(2, some 5)]]
+    let r := run s gracefulRestartOvertaken
+    s.state = some .created ∧ r.served = true ∧ r.sid = s.sid ∧ r.rows 1 = some 1 ∧ r.rows 2 = some 5 := by
   decide
 
 /-- abrupt stops at each phase: directory without `meta`, `created`, `running` with work waiting,
